@@ -253,7 +253,11 @@ theorem iter_nth_fresh {bits : Nat} (hb : validBits bits = true) (o : Order) (da
   have := Iter.nth_fst (Iter.new bits o data) hb hf k
   simpa [Iter.new] using this
 
-/-- `size_hint` is exact at every position: lower = upper = number of remaining items. -/
+/-- `size_hint` is exact at every position: lower = upper = number of remaining items. (The property
+text asks only that it BRACKETS the remaining count — `size_hint_brackets` below, oracle class
+`size-hint-bracket`; exactness is what the code does today, so the model states it and the
+correspondence compares the exact pair. A change to a looser but still bracketing hint would show
+as a model disagreement, not as an oracle failure.) -/
 theorem size_hint_exact (it : Iter) (hb : validBits it.bits = true) (hf : it.Fits) :
     it.sizeHint = (it.toList.length, some it.toList.length) := by
   rw [Iter.sizeHint_eq it hf, Iter.toList_length it hb]
